@@ -277,7 +277,7 @@ func eiaBits(x *mon.Ctx) {
 		for nbits := 0; nbits <= maxBits; nbits++ {
 			for _, kind := range bitKinds {
 				for rep := 0; rep < reps; rep++ {
-					c := x.Begin("bits alg=%s-%d nbits=%d kind=%s rep=%d: Finish(p, nbits) on a fresh object, then reuse", macAlgs[ai].alg, 8*macAlgs[ai].tag, nbits, kind, rep)
+					c := x.Begin("bits alg=%s-%d nbits=%d kind=%s rep=%d: Finish(p, nbits) on a fresh object (in half of the cases after the same call with a buffer that is too short was refused), then reuse", macAlgs[ai].alg, 8*macAlgs[ai].tag, nbits, kind, rep)
 					if c == nil {
 						continue
 					}
@@ -291,7 +291,6 @@ func eiaBits(x *mon.Ctx) {
 					c.Class("eia.place/%s/Finish@%v", m.name(), pl)
 					g := eiaGuard()
 					msg := bitMessage(r, kind, nbits)
-					p := pl.put(g, msg)
 					var h zuc.EIA
 					var err error
 					if !c.Call("constructor", func() { h, err = m.build() }) {
@@ -306,6 +305,15 @@ func eiaBits(x *mon.Ctx) {
 					if h.Size() != m.tag {
 						c.Fail("mismatch", "Size() = %d want %d", h.Size(), m.tag)
 					}
+					if nbits > 0 && r.Intn(2) == 0 {
+						// the call with a buffer too short for nbits is refused and must leave the fresh object fresh
+						if !refusedFinish(c, m, h, r, "on a fresh object", nbits) {
+							c.End()
+							continue
+						}
+						c.Event("mac_refused_before_finish", 1)
+					}
+					p := pl.put(g, msg)
 					var got []byte
 					if !c.Call("Finish", func() { got = h.Finish(p, nbits) }) {
 						c.End()
@@ -320,6 +328,10 @@ func eiaBits(x *mon.Ctx) {
 						// the object must now be as good as new
 						n2 := r.Intn(520)
 						msg2 := bitMessage(r, "random", n2)
+						if n2 > 0 && r.Intn(4) == 0 && !refusedFinish(c, m, h, r, fmt.Sprintf("on the object reused after Finish(%d bits)", nbits), n2) {
+							c.End()
+							continue
+						}
 						p2 := pl.next(1+r.Intn(nPlaces-1)).put(g, msg2)
 						switch r.Intn(3) {
 						case 0:
@@ -540,101 +552,27 @@ func eiaHist(x *mon.Ctx) {
 	walks := raceScale(x, x.Scale(1000, 12000))
 	for ai := range macAlgs {
 		for i := 0; i < walks; i++ {
-			c := x.Begin("hist alg=%s-%d walk %d: random history over Write/Sum/Finish/Reset on one MAC object", macAlgs[ai].alg, 8*macAlgs[ai].tag, i)
+			c := x.Begin("hist alg=%s-%d walk %d: random history over Write/Sum/Finish/Reset and refused Finish calls on one MAC object", macAlgs[ai].alg, 8*macAlgs[ai].tag, i)
 			if c == nil {
 				continue
 			}
 			r := c.R
 			m := newMacSpec(r, ai)
-			var h zuc.EIA
-			var err error
-			if !c.Call("constructor", func() { h, err = m.build() }) || err != nil {
-				if err != nil {
-					c.Fail("reject", "constructor refused valid parameters (%v): %v", m, err)
-				}
+			var log []string
+			c.Detail("history", lazyLog{&log})
+			mh := newMacHist(c, m, &log, "")
+			if mh == nil {
 				c.End()
 				continue
 			}
-			g := eiaGuard()
-			var absorbed []byte
-			var log []string
-			c.Detail("history", lazyLog{&log})
 			nops := 2 + r.Intn(14)
-			big := r.Intn(12) == 0
-			sparse := r.Intn(3) == 0 // structured data (zero words, single bits) in every Write and Finish of this walk
-			if sparse {
+			mh.big = r.Intn(12) == 0
+			mh.sparse = r.Intn(3) == 0
+			if mh.sparse {
 				c.Class("eia.hist.sparse/%s", m.name())
 			}
-			alive := true
-			for k := 0; k < nops && alive; k++ {
-				var what string
-				switch o := r.Intn(10); {
-				case o < 5: // Write
-					var n int
-					switch r.Intn(6) {
-					case 0:
-						n = 0
-					case 1:
-						n = 1 + r.Intn(3)
-					case 2:
-						n = 16*(1+r.Intn(4)) + r.Intn(3) - 1
-					case 3:
-						n = (16 - len(absorbed)%16) % 16 // fill the partial block exactly
-					default:
-						n = r.Intn(100)
-					}
-					if big && r.Intn(3) == 0 {
-						n = 1000 + r.Intn(3000)
-					}
-					what = fmt.Sprintf("Write(%d)", n)
-					log = append(log, what)
-					data := r.Bytes(n)
-					if sparse {
-						sparsify(r, data)
-					}
-					wp := place(r.Intn(nPlaces))
-					alive = writeAll(c, h, data, []int{n}, wp)
-					c.Class("eia.place/%s/Write@%v", m.name(), wp)
-					absorbed = append(absorbed, data...)
-					c.Class("eia.hist/%s/Write/nx=%d/%s", m.name(), (len(absorbed)-n)%16, lenClass16(n))
-				case o < 7: // Sum
-					what = "Sum"
-					log = append(log, what)
-					var s []byte
-					if alive = c.Call("Sum", func() { s = h.Sum(nil) }); alive {
-						alive = m.judge(c, fmt.Sprintf("op %d Sum over %d absorbed bytes", k, len(absorbed)), s, absorbed, 8*len(absorbed))
-					}
-					c.Class("eia.hist/%s/Sum/nx=%d", m.name(), len(absorbed)%16)
-				case o < 9: // Finish with extra bits
-					nb := r.Intn(200)
-					if r.Intn(4) == 0 {
-						nb = 0
-					}
-					tail := bitMessage(r, "random+junk", nb)
-					if sparse {
-						sparsify(r, tail)
-					}
-					fp := place(r.Intn(nPlaces))
-					p := fp.put(g, tail)
-					c.Class("eia.place/%s/Finish@%v", m.name(), fp)
-					what = fmt.Sprintf("Finish(%d bits)", nb)
-					log = append(log, what)
-					var s []byte
-					if alive = c.Call(what, func() { s = h.Finish(p, nb) }); alive {
-						full := append(append([]byte(nil), absorbed...), tail[:(nb+7)/8]...)
-						alive = m.judge(c, fmt.Sprintf("op %d Finish(p, %d bits) after %d absorbed bytes", k, nb, len(absorbed)), s, full, 8*len(absorbed)+nb)
-						c.CheckGuards(what, g)
-					}
-					c.Class("eia.hist/%s/Finish/nx=%d/bits%%32=%d", m.name(), len(absorbed)%16, nb%32)
-					absorbed = absorbed[:0]
-				default:
-					what = "Reset"
-					log = append(log, what)
-					alive = c.Call("Reset", func() { h.Reset() })
-					c.Class("eia.hist/%s/Reset/nx=%d", m.name(), len(absorbed)%16)
-					absorbed = absorbed[:0]
-				}
-				c.Event("mac_hist_ops", 1)
+			for k := 0; k < nops && mh.alive; k++ {
+				mh.step(r)
 			}
 			c.End()
 		}
